@@ -53,25 +53,38 @@ func (c *countingReader) ReadByte() (byte, error) {
 var _ io.ByteReader = (*countingReader)(nil)
 
 // runScript executes ops on the real Stream; obs are Coq terms of type Stream.obs.
-func runScript(b []byte, limit uint64, ops []int, guided bool, rng *hx.Rng) (opsOut []int, obs []string, pan interface{}, taken int, maxOut int) {
+func runScript(b []byte, limit uint64, ops []int, guided bool, rng *hx.Rng) (opsOut []int, obs []string, pan interface{}, taken int, maxOut int, unsticky string) {
 	defer func() {
 		if p := recover(); p != nil {
 			pan = p
 		}
 	}()
 	var rd io.Reader
-	cr := &countingReader{r: bytes.NewReader(b)}
+	br := bytes.NewReader(b)
+	cr := &countingReader{r: br}
 	rd = cr
 	eff := limit
 	if limit == 0 {
 		// "discover the limit from the reader" only works for *bytes.Reader itself
-		rd = bytes.NewReader(b)
+		rd = br
 		cr = nil
 		eff = uint64(len(b))
 	}
 	_ = eff
 	s := rlp.NewStream(rd, limit)
 	n := len(ops)
+	// stickiness: after Kind() reported a header error (anything but EOL), the next Kind/Bytes/Raw/Uint/Bool/
+	// List must report the same error and take nothing from the reader
+	stickyErr, stickyLeft := "", 0
+	note := func(op int, o string) {
+		if stickyErr != "" && op != 6 && unsticky == "" && (o != stickyErr || br.Len() != stickyLeft) {
+			unsticky = fmt.Sprintf("after Kind() returned %s, %s returned %s and took %d byte(s) from the reader", stickyErr, streamOps[op], o, stickyLeft-br.Len())
+		}
+		stickyErr = ""
+		if op == 0 && strings.HasPrefix(o, "BErr") && o != "BErr 12" {
+			stickyErr, stickyLeft = o, br.Len()
+		}
+	}
 	for i := 0; i < n; i++ {
 		op := ops[i]
 		if guided {
@@ -83,6 +96,7 @@ func runScript(b []byte, limit uint64, ops []int, guided bool, rng *hx.Rng) (ops
 			} else {
 				obs = append(obs, fmt.Sprintf("BKind %d %d", int(k), ksz))
 			}
+			note(0, obs[len(obs)-1])
 			switch {
 			case err == rlp.EOL:
 				op = 6
@@ -149,6 +163,7 @@ func runScript(b []byte, limit uint64, ops []int, guided bool, rng *hx.Rng) (ops
 			}
 		}
 		obs = append(obs, o)
+		note(op, o)
 	}
 	if cr != nil {
 		taken = cr.taken
@@ -166,6 +181,12 @@ func streamTier(a hx.Args, rng *hx.Rng, res *hx.Result, corpus [][]byte) *hx.Cas
 	for _, b := range corpus {
 		if len(b) > 0 && len(b) <= 80 {
 			pool = append(pool, b)
+		}
+	}
+	for i := 0; i < 60; i++ {
+		e, _ := rlp.EncodeToBytes(genTree(rng, 2))
+		if len(e) < 60 {
+			pool = append(pool, badHeaderVariants(e)...)
 		}
 	}
 	for i := 0; i < nScripts; i++ {
@@ -201,7 +222,7 @@ func streamTier(a hx.Args, rng *hx.Rng, res *hx.Result, corpus [][]byte) *hx.Cas
 			ops[k] = rng.Intn(7)
 		}
 		guided := rng.Intn(3) > 0
-		opsRun, obs, pan, taken, maxOut := runScript(b, limit, ops, guided, rng)
+		opsRun, obs, pan, taken, maxOut, unsticky := runScript(b, limit, ops, guided, rng)
 		names := make([]string, len(opsRun))
 		for k, o := range opsRun {
 			names[k] = streamOps[o]
@@ -210,6 +231,9 @@ func streamTier(a hx.Args, rng *hx.Rng, res *hx.Result, corpus [][]byte) *hx.Cas
 		if pan != nil {
 			res.Violate("C08/panic:Stream", fmt.Sprint(pan), desc)
 			continue
+		}
+		if unsticky != "" {
+			res.Violate("C08/stream:error-not-sticky", unsticky, desc)
 		}
 		if limit > 0 && uint64(taken) > limit {
 			res.Violate("C08/stream:reads-past-limit", fmt.Sprintf("the Stream took %d bytes from its reader with an input limit of %d", taken, limit), desc)
